@@ -91,7 +91,9 @@ def _prune_cache(keep=8):
     if not os.path.isdir(root):
         return
     ents = sorted(((os.path.getmtime(os.path.join(root, d)), d) for d in os.listdir(root)), reverse=True)
-    for _, d in ents[keep:]:
+    for mt, d in ents[keep:]:
+        if time.time() - mt < 4 * 3600:
+            continue        # possibly in use by a check that is still running (a thorough tier takes up to an hour)
         shutil.rmtree(os.path.join(root, d), ignore_errors=True)
 
 
